@@ -47,6 +47,35 @@ def generate(rng):
     pid = "u%d" % i
     programs[pid] = {"module": "up%d" % i, "src": src, "deps": deps, "exports": ex}
     ups.append(pid)
+  if rng.random() < 0.3:
+    # an upstream PACKAGE with a submodule, and a module that re-exports the
+    # submodule without using anything of it
+    srcA, exA = proggen.gen_module(rng, "pkg", (), errors=False,
+                                   size=rng.randrange(2, 6), theme=theme)
+    srcB, exB = proggen.gen_module(rng, "pkg.sub_b", (), errors=False,
+                                   size=rng.randrange(2, 6), theme=theme)
+    programs["pk0"] = {"module": "pkg", "is_pkg": True, "src": srcA, "deps": [],
+                       "exports": exA}
+    programs["pk1"] = {"module": "pkg.sub_b", "src": srcB, "deps": [], "exports": exB}
+    d2 = "from pkg import sub_b\nimport pkg\n"
+    d2_consts = []
+    if exB["classes"] and rng.random() < 0.5:
+      d2 += "v = sub_b.%s()\n" % rng.choice(exB["classes"])
+      d2_consts.append("v")
+    if exA["consts"] and rng.random() < 0.7:
+      d2 += "w = pkg.%s\n" % rng.choice(exA["consts"])
+      d2_consts.append("w")
+    programs["pk2"] = {"module": "d2", "src": d2, "deps": ["pk0", "pk1"],
+                       "exports": {"consts": d2_consts, "funcs": [], "classes": []},
+                       "reexports": exB["classes"][:2]}
+    ups.extend(["pk0", "pk1", "pk2"])
+  bad_stub = rng.random() < 0.3
+  if bad_stub:
+    # a hand-written third-party stub that parses and resolves but does not
+    # pass pytype's final verification (List takes one parameter)
+    programs["bs0"] = {"module": "badstub", "deps": [], "exports": {},
+                       "stub_text": "from typing import List\n\nclass K:\n    x: int\n\n"
+                                    "def f(x: List[int, str]) -> K: ...\n"}
   mains = []
   prev = None
   prev_direct = []
@@ -87,6 +116,12 @@ def generate(rng):
                                  errors=True, size=size, theme=theme, fork=fork)
     if fork and rng.random() < 0.5:
       src = proggen.drop_some_bases(rng, src)
+    if "pk2" in prev_direct and programs["pk2"].get("reexports"):
+      src += "yy = d2.sub_b.%s()\n" % programs["pk2"]["reexports"][0]
+    deps = list(deps)
+    if bad_stub and rng.random() < 0.6:
+      src += "import badstub\nzz = badstub.K()\n"
+      deps = deps + ["bs0"]
     prev = (deps, sub_seed, size)
     pid = "m%d" % i
     programs[pid] = {"module": "main", "src": src, "deps": deps, "exports": ex,
@@ -472,7 +507,7 @@ def stale_after_save(trace, w, ri):
 
 
 def trace_key(trace):
-  return kernel.digest(sorted((pid, p["src"]) for pid, p in trace["programs"].items()))
+  return kernel.digest(sorted((pid, p.get("src", p.get("stub_text"))) for pid, p in trace["programs"].items()))
 
 
 def vkey(v):
@@ -649,7 +684,7 @@ def run_chunk(args):
       tr = res["trace"]
       agg["samples"].append({
           "run_index": index,
-          "programs": {pid: p["src"] for pid, p in list(tr["programs"].items())[:2]},
+          "programs": {pid: p.get("src", p.get("stub_text")) for pid, p in list(tr["programs"].items())[:2]},
           "worker_1_env": tr["workers"][-1]["env"],
           "worker_1_history": [{k: v for k, v in rq.items() if k != "opts"}
                                for rq in tr["workers"][-1]["history"][:8]]})
